@@ -287,6 +287,11 @@ structure LiveOr where
   startCommits : List (Nat × Nat) := []
   firstNew : List (Nat × Nat) := []          -- member ↦ highest member view when it first committed anew
   timeouts : Nat := 0                        -- timeout view changes seen in a fault-free phase
+  /-- in the current phase some replica was seen holding a QC FOR ITS CURRENT VIEW and still sitting in that
+  view: the recorded Fast-HotStuff finding (under the aggregate timeout rule a QC never ends a view).  Only a
+  liveness failure of a Fast-HotStuff run in which this was observed carries the signature of that finding;
+  with the plain rule it cannot happen (`sys_high_certificates_below_view`). -/
+  qcHeld : Bool := false
   blocks : List (String × Nat) := [("G", 0)] -- name ↦ view
 
 def setNat (k v : Nat) (l : List (Nat × Nat)) : List (Nat × Nat) := (k, v) :: l.filter (·.1 != k)
@@ -301,12 +306,13 @@ def liveOracleStep (o : LiveOr) (toks : List String) : LiveOr × String :=
     let ms := ((field "members" rest).map fun s => (splitChar ',' s).filterMap (·.toNat?)).getD []
     let sv := ms.foldl (fun m i => max m ((o.view.lookup i).getD 1)) 0
     ({ o with phase := "sync", members := ms, chain := (natField "chain" rest).getD 3, startView := sv,
-              startCommits := ms.map fun i => (i, (o.commits.lookup i).getD 0), firstNew := [] }, "pass")
+              startCommits := ms.map fun i => (i, (o.commits.lookup i).getD 0), firstNew := [], qcHeld := false }, "pass")
   | "mark" :: "fault-free" :: rest =>
-    ({ o with phase := "fault-free", chain := (natField "chain" rest).getD 3, timeouts := 0 }, "pass")
+    ({ o with phase := "fault-free", chain := (natField "chain" rest).getD 3, timeouts := 0, qcHeld := false }, "pass")
   | ["mark", "end"] =>
     let o' := { o with phase := "" }
-    let pre := if o.fast then "fhs-" else ""
+    -- the signature of the recorded finding only where its cause was observed in this very phase
+    let pre := if o.fast && o.qcHeld then "fhs-" else ""
     if o.phase == "sync" then
       match o.members.find? (fun i => (o.firstNew.lookup i).isNone) with
       | some i => (o', s!"fail {pre}no-progress replica {i} committed nothing new although the members {natList o.members} exchanged all their messages (views {natList (o.members.map fun j => (o.view.lookup j).getD 0)}, started at view {o.startView})")
@@ -344,7 +350,8 @@ def liveOracleStep (o : LiveOr) (toks : List String) : LiveOr × String :=
                          hqc := match hq with | some h => setNat i h o.hqc | none => o.hqc,
                          commits := setNat i ((o.commits.lookup i).getD 0 + nCommits) o.commits,
                          comView := match lastCom with | some b => setNat i ((blocks.lookup b).getD 0) o.comView | none => o.comView,
-                         timeouts := o.timeouts + (if o.phase == "fault-free" then tmo else 0) }
+                         timeouts := o.timeouts + (if o.phase == "fault-free" then tmo else 0),
+                         qcHeld := o.qcHeld || (o.fast && o.phase != "" && (match hq with | some h => decide (v ≤ h) | none => false)) }
       -- fault-free runs: whenever a replica votes for the block of view v (> chain length) it commits, in
       -- the same step, the block of view v - chain length: commits trail the newest block by exactly that
       -- (the run never quiesces, so this is judged per step, not on an end state)
